@@ -310,7 +310,7 @@ def r_mean(x, a, k, pre, u):
 
 def _r_accumulate(name):
     def r(x, a, k, pre, u):
-        return "view::%s(%s,%s)" % (name, x[0], _axis_expr(a["axis"], k, pre, u)), None, progen._inc(name)
+        return "view::%s(%s,%s)" % (name, x[0], _axis_expr(a["axis"], k, pre, u)), None, ["nmtools/array/view/%s.hpp" % name]
     return r
 
 
@@ -336,12 +336,21 @@ for _n in ACTIV:
     RENDER[_n] = _r_activation(_n)
 
 
+_FDIR = os.path.join(build.REPO, "include", "nmtools", "array", "functional")
+
+
 def functional_includes(op):
-    if op in UFUNC1 or op in UFUNC2:
-        return _finc("ufuncs/" + op)
-    if op in ACTIV:
-        return _finc("activations/" + op)
-    return _finc(op)
+    """what cuda/evaluator.hpp includes (functional.hpp) plus the op's own functional header when the library has one"""
+    rel = ("ufuncs/" + op) if (op in UFUNC1 or op in UFUNC2) else ("activations/" + op) if op in ACTIV else op
+    out = ["nmtools/array/functional.hpp"]
+    if os.path.exists(os.path.join(_FDIR, rel + ".hpp")):
+        out += _finc(rel)
+    return out
+
+
+def first_error(err):
+    ls = [l for l in err.splitlines() if "error:" in l]
+    return (ls[0] if ls else (err.splitlines() or ["?"])[0])[-300:]
 
 
 _PGKH = []
@@ -574,10 +583,10 @@ class C13(e2.ProgenProp):
                 stats.rejected["rejected_compile"] = stats.rejected.get("rejected_compile", 0) + 1
                 stats.classes["program:rejected_compile"] = stats.classes.get("program:rejected_compile", 0) + 1
                 if u["tag"] == "probe":
-                    rejected_ops[ops[0]] = (err.splitlines() or ["?"])[0][-260:]
+                    rejected_ops[ops[0]] = first_error(err)
                 else:
                     k = "rejected_composition:" + ">".join(ops)
-                    info.setdefault("rejected_compositions", {})[k] = (err.splitlines() or ["?"])[0][-200:]
+                    info.setdefault("rejected_compositions", {})[k] = first_error(err)
                 continue
             u["path"] = path
             runnable.append(u)
